@@ -267,6 +267,10 @@ def check_part_cache(chk, ctx, inp, where):
             cur = ('unreadable', repr(cache[key])[:80])
         want = _CACHE_VERIFIED.get(key)
         if want is None:
+            if not (isinstance(key, tuple) and len(key) == 4):
+                # a key of another shape cannot be interpreted here (not a violation by itself); what the table returns for every
+                # (x, n, minval, maxval) is judged by check_parts on direct calls
+                chk.stat('part_cache_key_other_shape'); continue
             x, n, minv, maxv = key
             try:
                 if float(n) == int(n) and int(n) <= 12 and float(x) == int(x):
